@@ -311,32 +311,6 @@ theorem c06_route_gate (cfg : Cfg) (webui : Nat) (r : Route) (req : Req)
 
 end KM.Routes
 
--- BEGIN PINS (written by bin/update-pins.py)
-namespace KM.Auth
-
-/-- **Source pins** (regenerated): SHA-256 (first 80 bits) of the signature and body, whitespace-normalised,
-of the functions `KM.Auth.checkAuth` and `KM.Routes` transcribe — equal to the values recorded when the model was last
-read against the code. Any edit, harmless or not, breaks this tie. -/
-theorem c06_source_pins :
-    KM.Gen.Pins.checkAuth = "0cf449f8155b8b096501" ∧
-    KM.Gen.Pins.getUsernameIfKeymasterSigned = "3bd54cf26d0233fda3cd" ∧
-    KM.Gen.Pins.getUsernameIfIPRestricted = "8990794d6d846b9ce3df" ∧
-    KM.Gen.Pins.getAuthInfoFromJWT = "0c41bb54cfa0a642e950" ∧
-    KM.Gen.Pins.getAuthInfoFromAuthJWT = "b467a7c4bb05119d1014" ∧
-    KM.Gen.Pins.getRequiredWebUIAuthLevel = "2febd98a0852ac4b9da5" ∧
-    KM.Gen.Pins.sendFailureToClientIfLocked = "d37578883f62ab469b69" ∧
-    KM.Gen.Pins.sendFailureToClientIfNonAdmin = "e327fa7a19bce349c845" ∧
-    KM.Gen.Pins.commonTOTPPostHandler = "e03bf2a235d475870a0c" ∧
-    KM.Gen.Pins.reprocessUsername = "b849cdbd82e9ae50db6a" ∧
-    KM.Gen.Pins.checkUserPassword = "5155bfe5bff2934ed24c" ∧
-    KM.Gen.Pins.checkPasswordAttemptLimit = "bb809a1a0bceb1b6ff2c" ∧
-    KM.Gen.Pins.getOriginOrReferrer = "b35b2e1bddb19bb4e01a" ∧
-    KM.Gen.Pins.VerifyIPRestrictedX509CertIP = "acb7ecb6dc2826aacedd" ∧
-    KM.Gen.Pins.IsIPRestrictedX509Cert = "62b0bea12e1c4b7d1398" := by
-  exact ⟨rfl, rfl, rfl, rfl, rfl, rfl, rfl, rfl, rfl, rfl, rfl, rfl, rfl, rfl, rfl⟩
-
-end KM.Auth
--- END PINS
 
 /-! ### `getRequiredWebUIAuthLevel` as TRANSLATED from the current source (go2lean) -/
 namespace KM.Routes
@@ -376,3 +350,30 @@ theorem c06_go_webui_level (prefs : List (List Char)) :
   simp only [b1, b2, b3, b4, b5, b6, b7, Bool.false_eq_true, if_false, Nat.or_zero]
 
 end KM.Routes
+
+-- BEGIN PINS (written by bin/update-pins.py)
+namespace KM.Auth
+
+/-- **Source pins** (regenerated): SHA-256 (first 80 bits) of the signature and body, whitespace-normalised,
+of the functions `KM.Auth.checkAuth` and `KM.Routes` transcribe — equal to the values recorded when the model was last
+read against the code. Any edit, harmless or not, breaks this tie. -/
+theorem c06_source_pins :
+    KM.Gen.Pins.checkAuth = "0cf449f8155b8b096501" ∧
+    KM.Gen.Pins.getUsernameIfKeymasterSigned = "3bd54cf26d0233fda3cd" ∧
+    KM.Gen.Pins.getUsernameIfIPRestricted = "8990794d6d846b9ce3df" ∧
+    KM.Gen.Pins.getAuthInfoFromJWT = "0c41bb54cfa0a642e950" ∧
+    KM.Gen.Pins.getAuthInfoFromAuthJWT = "b467a7c4bb05119d1014" ∧
+    KM.Gen.Pins.getRequiredWebUIAuthLevel = "2febd98a0852ac4b9da5" ∧
+    KM.Gen.Pins.sendFailureToClientIfLocked = "d37578883f62ab469b69" ∧
+    KM.Gen.Pins.sendFailureToClientIfNonAdmin = "e327fa7a19bce349c845" ∧
+    KM.Gen.Pins.commonTOTPPostHandler = "e03bf2a235d475870a0c" ∧
+    KM.Gen.Pins.reprocessUsername = "b849cdbd82e9ae50db6a" ∧
+    KM.Gen.Pins.checkUserPassword = "5155bfe5bff2934ed24c" ∧
+    KM.Gen.Pins.checkPasswordAttemptLimit = "bb809a1a0bceb1b6ff2c" ∧
+    KM.Gen.Pins.getOriginOrReferrer = "b35b2e1bddb19bb4e01a" ∧
+    KM.Gen.Pins.VerifyIPRestrictedX509CertIP = "acb7ecb6dc2826aacedd" ∧
+    KM.Gen.Pins.IsIPRestrictedX509Cert = "62b0bea12e1c4b7d1398" := by
+  exact ⟨rfl, rfl, rfl, rfl, rfl, rfl, rfl, rfl, rfl, rfl, rfl, rfl, rfl, rfl, rfl⟩
+
+end KM.Auth
+-- END PINS
